@@ -21,6 +21,7 @@ extern int vp_evbuffer_freed;
 /* input queue for the evbuffer model */
 #define VP_MAXIN 8
 extern const char *vp_in_lines[VP_MAXIN];
+extern unsigned vp_in_len[VP_MAXIN];
 extern unsigned vp_in_count, vp_in_next;
 extern int vp_read_result;     /* what evbuffer_read() returns: >0 data, 0 EOF, <0 error */
 
